@@ -220,6 +220,7 @@ func runRun(rc runCase, cp *capture) (err error) {
 		select {
 		case escaped = <-runDone:
 		case <-time.After(hangBound):
+			wedged.Store(true)
 			return fmt.Errorf("Run() did not return within %s after the peer had hung up", hangBound)
 		}
 	case escaped = <-runDone:
@@ -230,6 +231,7 @@ func runRun(rc runCase, cp *capture) (err error) {
 			return fmt.Errorf("harness writer stuck")
 		}
 	case <-time.After(3 * hangBound):
+		wedged.Store(true)
 		return fmt.Errorf("neither the frames were consumed nor did Run() return within %s", 3*hangBound)
 	}
 	<-drained
@@ -301,6 +303,9 @@ func TestRunLoop(t *testing.T) {
 	cp := startCapture()
 	defer cp.stop()
 	pbt.Check(t, pbt.Cfg{Name: "run_loop", Quick: 20000, Thorough: 600000}, func(r *pbt.Run) {
+		if wedged.Load() {
+			return
+		}
 		rc := genRunCase(r.T)
 		r.Case(rc)
 		if rc.Handshake {
